@@ -6,6 +6,7 @@ import JominiModel.Proofs.WriterFlat
 import JominiModel.Proofs.WriterTape
 import JominiModel.Proofs.TextTapeFaithful3
 import JominiModel.Proofs.WriterArraysTape
+import JominiModel.Proofs.WriterGenTape
 /-
 C14 — Writing a parsed tape and re-parsing reproduces the same structure; writing is idempotent.
 Only property theorems live here; helper lemmas are in `Proofs/Writer.lean`.
@@ -221,10 +222,38 @@ theorem C14_roundtrip_arrays (jfs : TextTape.JFields) (gt : Bytes) (fs : List AF
   rw [WriterParse.kcontentF_alayout] at he
   exact ⟨T₀, _, T, hp0, by rw [htape]; exact hw, by rw [hout]; exact hp, by rw [he, he0, hcontent]⟩
 
+/-- `C14_roundtrip` for the general container fragment: a document of fields whose values are
+scalars, empty containers, objects, arrays of scalars, arrays of containers, and containers with a
+header (`rgb { … }`, `hsv { … }`, `LIST { … }`), nested to any depth (`fs`, in the form a tape gives
+rise to), under ANY valid fragment-3 layout `jfs` of the text-tape slice; parse it, write the tape
+under any indent factor and blank indent byte, parse what was written: the second tape equals the
+first modulo the positions of the scalars — keys, operators, scalars, quotedness, `Object` /
+`Array` / `End` links, `Header` tokens.  `write_tape` performs exactly the calls of the document
+(`writeTape_gen`), so the text is `gtextRoot`.
+`hgood`: the scalars are scalars of the format; an object does not begin with a header field (not in
+the parser slice's layout model); array-first containers and header bodies are non-empty.
+`hb'`: the written text does not begin with the BOM bytes (known finding `roundtrip-bom-key`). -/
+theorem C14_roundtrip_containers (jfs : TextTape.JFields) (gt : Bytes) (fs : GFields) (c : UInt8) (f : Nat)
+    (hc : TextTape.isBlank c = true) (hgt : TextTape.Blank gt) (hv : TextTape.JValidF jfs gt)
+    (hb : TextTape.hasBom (TextTape.jrenderF jfs ++ gt) = false)
+    (hcontent : TextTape.kcontentF jfs = gcontentF fs) (hcanon : fs.Canon) (hgood : fs.Good)
+    (hb' : TextTape.hasBom (gtextRoot c f fs) = false) :
+    ∃ T₀ s T, TextTape.parse (TextTape.jrenderF jfs ++ gt) = .ok T₀ false ∧
+      writeTape (T₀.map ofTT) (State.init c f) = .ok s ∧
+      TextTape.parse s.out = .ok T false ∧
+      T.map TextTape.Tok.erase = T₀.map TextTape.Tok.erase := by
+  obtain ⟨T₀, hp0, he0⟩ := TextTape.faithful_tree jfs gt hgt hv hb
+  have htape : T₀.map ofTT = wgF 0 fs := by rw [← map_ofTT_erase, he0, hcontent, wgF_eq]
+  have hw := writeTape_gen fs hcanon c f
+  have hout := lexemes_gen fs (opened_of_canonF fs hcanon hgood) c f
+  obtain ⟨T, hp, he⟩ := WriterParse.parse_gtextRoot c f hc fs hgood hb'
+  exact ⟨T₀, _, T, hp0, by rw [htape]; exact hw, by rw [hout]; exact hp, by rw [he, he0, hcontent]⟩
+
 /-
 Growth theorem, NOT proved beyond flat documents and nested objects (full statement kept;
-`C14_roundtrip_flat`, `C14_roundtrip_nested` and `C14_roundtrip_arrays` are its instances; arrays
-inside containers and arrays of containers, headers, parameter blocks and mixed containers are decided
+`C14_roundtrip_flat`, `C14_roundtrip_nested`, `C14_roundtrip_arrays` and `C14_roundtrip_containers`
+(objects, arrays of scalars and of containers, empty containers, headers, any nesting) are its
+instances; parameter blocks and mixed containers — where the two known findings live — are decided
 by the L3 oracle on the real code):
 
   theorem C14_roundtrip (doc : Doc) (h : RoundTrippable doc) (layout : Layout) (c : UInt8) (f : Nat)
